@@ -114,6 +114,26 @@ def siblings(n, how, tail):
     return {"files": files, "top": "top.sv"}
 
 
+def group_cycle(c):
+    """macro cycle that closes INSIDE the parenthesised group written behind a body-less, formal-less macro:
+    `define E / `define G1 `E (`G2) / ... / `define Gc `E (`G1) / `G1   (the group is ordinary text that is rescanned)"""
+    items = [pp.define("E", None, None), pp.nl()]
+    for i in range(1, c + 1):
+        items += [pp.define("G%d" % i, None, [pp.bt("use", "E", a=[[[pp.bt("use", "G%d" % (i % c + 1))]]])]), pp.nl()]
+    items += [pp.tok("a"), pp.use("G1"), pp.tok("z"), pp.nl()]
+    return {"files": {"top.sv": items}, "top": "top.sv"}
+
+
+def group_chain(d):
+    """legal chain of depth d through such groups, ending in a leaf"""
+    items = [pp.define("E", None, None), pp.nl()]
+    for i in range(1, d + 1):
+        inner = [pp.bt("use", "H%d" % (i + 1))] if i < d else [pp.bt("lit", "leaf")]
+        items += [pp.define("H%d" % i, None, [pp.bt("use", "E", a=[[inner]])]), pp.nl()]
+    items += [pp.tok("a"), pp.use("H1"), pp.tok("z"), pp.nl()]
+    return {"files": {"top.sv": items}, "top": "top.sv"}
+
+
 def run(tier, seed):
     v = vlib.Verdict("C09", tier, seed)
     vlib.build_harness()
@@ -142,6 +162,10 @@ def run(tier, seed):
             fam.append(("mixed_chain", d, mixed_chain(d)))
     for c in (1, 2, 3, 4):
         fam += [("macro_cycle", c, macro_cycle(c)), ("include_cycle", c, include_cycle(c)), ("mixed_cycle", c, mixed_cycle(c))]
+    for c in (1, 2, 3):
+        fam.append(("group_cycle", c, group_cycle(c)))
+    for d in (1, 2, 15, 30, 31, 32, 33, 63, 64, 65):
+        fam.append(("group_chain", d, group_chain(d)))
     for how in ("minc", "inc", "use", "mixinc"):
         for (n, tail) in ((70, 0), (40, 30), (130, 63)):
             fam.append(("siblings_" + how, "%d+%d" % (n, tail), siblings(n, how, tail)))
